@@ -326,6 +326,15 @@ func createWriterWithCtx(obs kanzi.OutputBitStream, ctx map[string]any) (*Writer
 		return nil, &IOError{msg: err.Error(), code: kanzi.ERR_INVALID_PARAM}
 	}
 
+	// Store canonical names: codecs select variants by comparing these strings
+	if name, err := entropy.GetName(this.entropyType); err == nil {
+		ctx["entropy"] = name
+	}
+
+	if name, err := transform.GetName(this.transformType); err == nil {
+		ctx["transform"] = name
+	}
+
 	this.blockSize = int(bSize)
 	this.available = 0
 	nbBlocks := 0
@@ -1240,6 +1249,10 @@ func (this *Reader) validateHeaderless() error {
 		if err != nil {
 			return &IOError{msg: err.Error(), code: kanzi.ERR_INVALID_PARAM}
 		}
+
+		if name, err := entropy.GetName(this.entropyType); err == nil {
+			this.ctx["entropy"] = name
+		}
 	} else {
 		return &IOError{msg: "Missing entropy in headerless mode", code: kanzi.ERR_MISSING_PARAM}
 	}
@@ -1255,6 +1268,10 @@ func (this *Reader) validateHeaderless() error {
 
 		if err != nil {
 			return &IOError{msg: err.Error(), code: kanzi.ERR_INVALID_PARAM}
+		}
+
+		if name, err := transform.GetName(this.transformType); err == nil {
+			this.ctx["transform"] = name
 		}
 	} else {
 		return &IOError{msg: "Missing transform in headerless mode", code: kanzi.ERR_MISSING_PARAM}
